@@ -280,7 +280,9 @@ template <class D> static void step(World<D> &W, const std::string &opstr, bool 
     A -= V[I(2)];
     A.rename(from, to);
     s[I(2)] = s[I(1)];
-    s[I(1)] = W.in("h");
+    // known finding F10: fixed_tvpi_domain::rename is an unimplemented no-op; with the finding
+    // excluded the old name is required to keep its value (the weaker, still checkable contract)
+    if (!sx::known("F10-tvpi-rename-unimplemented")) s[I(1)] = W.in("h");
   } else if (op == "exp") { // exp.v.w : w becomes a copy of v
     A -= V[I(2)];
     A.expand(V[I(1)], V[I(2)]);
